@@ -12,7 +12,21 @@ func GenDTScript(r *Rng, hist map[string]int, nops int) []string {
 	add := func(format string, a ...interface{}) { out = append(out, "E "+fmt.Sprintf(format, a...)) }
 	o := EngineGenOpts{FixedIO: -1}
 	add("dir db")
-	add("open %s", genCfg(r, o, hist))
+	if r.Chance(1, 3) {
+		// the arguments of every command share one buffer (as a network parser delivers them)
+		add("hostile 1")
+		hist["dt_arguments_share_one_buffer"]++
+	}
+	// block-boundary sweep: before some commands the log is padded so that the command's records start a
+	// drawn distance (1-90 bytes) before the end of a 32 KiB block (the second and later records of a
+	// command's batch then begin within the last bytes of the block)
+	sweep := r.Chance(1, 6)
+	c0 := genCfg(r, o, hist)
+	if sweep {
+		c0.fsize = 1 << 20
+		hist["dt_block_boundary_sweep"]++
+	}
+	add("open %s", c0)
 	keys := []string{"6b", "6b6b", "71", "6b00", "a0ff"}
 	nk := 1 + r.Intn(len(keys))
 	small := []string{"-", "61", "62", "6162", "00", "ff0102"}
@@ -49,6 +63,10 @@ func GenDTScript(r *Rng, hist map[string]int, nops int) []string {
 		}
 		if k == "-" {
 			t = "str"
+		}
+		if sweep && r.Chance(1, 3) {
+			add("padto %d 70616466 %d", 1+r.Intn(90), r.Intn(99999))
+			hist["dt_padded_to_block_end"]++
 		}
 		switch x := r.Intn(30); {
 		case x == 0:
